@@ -31,7 +31,10 @@
 (***************************************************************************)
 EXTENDS Integers, Sequences, FiniteSets, TLC
 
-CONSTANTS MaxTasks, MaxSend, WithCloser, Dev_NoConnRecheck, Dev_NoInputRecheck, Dev_NoHupTask, Dev_HupLockTwice
+CONSTANTS MaxTasks, MaxSend, WithCloser,
+          WithOnConnect,   \* an OnConnect callback is configured (else onConnect() only sets the state word)
+          HandlerCloses,   \* the handler consumes what is buffered and then calls Close itself
+          Dev_NoConnRecheck, Dev_NoInputRecheck, Dev_NoHupTask, Dev_HupLockTwice
 
 VARIABLES
     sh,     \* shared words: [closing (0 none, 1 user, 2 poller), connecting, processing, st (0 none, 1 connected, 2 disconnected), inlen, opst, det (Control(PollDetach) calls), reg]
@@ -46,15 +49,19 @@ vars == <<sh, env, P, H, T, nt, C, hist>>
 
 NoTask == [pc |-> "none", cb |-> 0, oc |-> FALSE, n |-> 0]
 
+InitSh == IF WithOnConnect THEN [closing |-> 0, connecting |-> 1, processing |-> 1, st |-> 0, inlen |-> 0, opst |-> 1, det |-> 0, reg |-> TRUE]
+                           ELSE [closing |-> 0, connecting |-> 0, processing |-> 0, st |-> 1, inlen |-> 0, opst |-> 1, det |-> 0, reg |-> TRUE]
+InitT == [i \in 1 .. MaxTasks |-> IF i = 1 /\ WithOnConnect THEN [pc |-> "t_start", cb |-> 0, oc |-> TRUE, n |-> 0] ELSE NoTask]
+InitHist == [conn |-> IF WithOnConnect THEN 0 ELSE 2, req |-> 0, reqs |-> 0, cc |-> 0, ccn |-> 0, od |-> 0, pcl |-> 0, bad |-> {}]
 Init ==
-    /\ sh = [closing |-> 0, connecting |-> 1, processing |-> 1, st |-> 0, inlen |-> 0, opst |-> 1, det |-> 0, reg |-> TRUE]
+    /\ sh = InitSh
     /\ env = [pend |-> 0, sent |-> 0, peerClosed |-> FALSE]
     /\ P = [pc |-> "p_fetch", k |-> 0, hup |-> FALSE, need |-> FALSE]
     /\ H = [pc |-> "none"]
-    /\ T = [i \in 1 .. MaxTasks |-> IF i = 1 THEN [pc |-> "t_start", cb |-> 0, oc |-> TRUE, n |-> 0] ELSE NoTask]
-    /\ nt = 1
+    /\ T = InitT
+    /\ nt = IF WithOnConnect THEN 1 ELSE 0
     /\ C = [pc |-> IF WithCloser THEN "c_cb" ELSE "none"]
-    /\ hist = [conn |-> 0, req |-> 0, reqs |-> 0, cc |-> 0, ccn |-> 0, od |-> 0, pcl |-> 0, bad |-> {}]
+    /\ hist = InitHist
 
 \* ---- callbacks (history) ----------------------------------------------------------
 Bad(h, cond, rule) == IF cond THEN [h EXCEPT !.bad = @ \cup {rule}] ELSE h
@@ -95,6 +102,8 @@ EnterCc(needDetach) == IF needDetach THEN <<"cc_det", hist>> ELSE <<"cc_stop", C
 
 \* ---- tasks (onProcess) -----------------------------------------------------------------
 TSet(i, pc) == T' = [T EXCEPT ![i].pc = pc]
+\* the handler has consumed; it returns, or (HandlerCloses) calls Close first
+HEnd(i) == IF HandlerCloses THEN TSet(i, "t_hc_cb") /\ UNCHANGED hist ELSE TSet(i, "t_l_st") /\ hist' = ReqEnd(hist)
 \* leaving the processing loop has no schedule point of its own: the step that decides to break runs on to closeCallback's first
 \* point (connection closed: cb = who closed) or to unlock(processing)
 Leave(i, cb) ==
@@ -138,17 +147,25 @@ TStep(i) ==
       [] t.pc = "t_h3" -> /\ TSet(i, "t_h4") /\ UNCHANGED <<sh, hist, nt>>
       [] t.pc = "t_h4" -> /\ sh' = [sh EXCEPT !.inlen = @ - t.n] /\ TSet(i, "t_h5") /\ UNCHANGED <<hist, nt>>
       [] t.pc = "t_h5" ->           \* Release: Len() == 0 && IsActive() && operator.do()
-            /\ IF sh.inlen = 0 THEN TSet(i, "t_h6") /\ UNCHANGED hist ELSE TSet(i, "t_l_st") /\ hist' = ReqEnd(hist)
+            /\ IF sh.inlen = 0 THEN TSet(i, "t_h6") /\ UNCHANGED hist ELSE HEnd(i)
             /\ UNCHANGED <<sh, nt>>
       [] t.pc = "t_h6" ->
-            /\ IF sh.closing = 0 THEN TSet(i, "t_h7") /\ UNCHANGED hist ELSE TSet(i, "t_l_st") /\ hist' = ReqEnd(hist)
+            /\ IF sh.closing = 0 THEN TSet(i, "t_h7") /\ UNCHANGED hist ELSE HEnd(i)
             /\ UNCHANGED <<sh, nt>>
       [] t.pc = "t_h7" ->
             /\ IF sh.opst = 1 THEN sh' = [sh EXCEPT !.opst = 2] /\ TSet(i, "t_h8") /\ UNCHANGED hist
-                              ELSE UNCHANGED sh /\ TSet(i, "t_l_st") /\ hist' = ReqEnd(hist)
+                              ELSE UNCHANGED sh /\ HEnd(i)
             /\ UNCHANGED nt
       [] t.pc = "t_h8" -> /\ TSet(i, "t_h9") /\ UNCHANGED <<sh, hist, nt>>
-      [] t.pc = "t_h9" -> /\ sh' = [sh EXCEPT !.opst = 1] /\ TSet(i, "t_l_st") /\ hist' = ReqEnd(hist) /\ UNCHANGED nt
+      [] t.pc = "t_h9" -> /\ sh' = [sh EXCEPT !.opst = 1] /\ HEnd(i) /\ UNCHANGED nt
+      \* Close() called by the handler (onClose): closeBy(user) / force(closing, user); closeCallback(true, ..) cannot take the key this task holds
+      [] t.pc = "t_hc_cb" ->
+            /\ IF sh.closing = 0 THEN sh' = [sh EXCEPT !.closing = 1] /\ TSet(i, "t_hc_tr") ELSE UNCHANGED sh /\ TSet(i, "t_hc_force")
+            /\ UNCHANGED <<hist, nt>>
+      [] t.pc = "t_hc_tr" -> /\ TSet(i, "t_hc_tw") /\ UNCHANGED <<sh, hist, nt>>
+      [] t.pc = "t_hc_tw" -> /\ TSet(i, "t_hc_lk") /\ UNCHANGED <<sh, hist, nt>>
+      [] t.pc = "t_hc_force" -> /\ sh' = [sh EXCEPT !.closing = 1] /\ TSet(i, "t_hc_lk") /\ UNCHANGED <<hist, nt>>
+      [] t.pc = "t_hc_lk" -> /\ TSet(i, "t_l_st") /\ hist' = ReqEnd(hist) /\ UNCHANGED <<sh, nt>>
       \* the processing loop
       [] t.pc = "t_l_st" ->         \* closedBy = status(closing); closed by the user: break
             /\ IF sh.closing = 1 THEN Leave(i, 1) ELSE T' = [T EXCEPT ![i].cb = sh.closing, ![i].pc = "t_l_len"] /\ UNCHANGED hist
@@ -202,7 +219,7 @@ PStep ==
             /\ P' = [P EXCEPT !.pc = IF P.k = 0 THEN "p_det" ELSE IF sh.inlen = 0 THEN "p_gs" ELSE "p_ws", !.need = TRUE]
             /\ UNCHANGED <<env, H, T, nt, hist>>
       [] P.pc = "p_gs" ->           \* wait for OnConnect: getState() == none -> let the OnConnect task call the handler
-            /\ P' = [P EXCEPT !.pc = IF sh.st = 0 THEN "p_ws" ELSE "p_lk", !.need = (sh.st # 0)]
+            /\ P' = [P EXCEPT !.pc = IF sh.st = 0 /\ WithOnConnect THEN "p_ws" ELSE "p_lk", !.need = ~(sh.st = 0 /\ WithOnConnect)]
             /\ UNCHANGED <<sh, env, H, T, nt, hist>>
       [] P.pc = "p_lk" ->           \* onProcess: lock(processing); start a task
             /\ IF sh.processing = 0
@@ -233,7 +250,9 @@ HStep ==
                                  ELSE UNCHANGED <<sh, hist>> /\ HSet("end")
             /\ UNCHANGED <<T, nt>>
       [] H.pc = "h_tr" -> /\ HSet("h_tw") /\ UNCHANGED <<sh, T, nt, hist>>
-      [] H.pc = "h_tw" -> /\ HSet("h_gs") /\ UNCHANGED <<sh, T, nt, hist>>
+      [] H.pc = "h_tw" -> /\ HSet(IF WithOnConnect THEN "h_gs" ELSE "h_ss") /\ UNCHANGED <<sh, T, nt, hist>>
+      [] H.pc = "h_ss" ->           \* onDisconnect without OnConnect: setState(disconnected); the callback
+            /\ sh' = [sh EXCEPT !.st = 2] /\ hist' = Disc(hist) /\ HSet(AfterDisc) /\ UNCHANGED <<T, nt>>
       [] H.pc = "h_gs" ->           \* onDisconnect: getState() != none && lock(connecting)
             /\ HSet(IF sh.st # 0 THEN "h_lk" ELSE AfterDisc) /\ UNCHANGED <<sh, T, nt, hist>>
       [] H.pc = "h_lk" ->
@@ -254,14 +273,14 @@ HStep ==
             /\ IF sh.inlen > 0 THEN HSet("h_gs2") /\ UNCHANGED hist ELSE (LET e == EnterCc(FALSE) IN HSet(e[1]) /\ hist' = e[2])
             /\ UNCHANGED <<sh, T, nt>>
       [] H.pc = "h_gs2" ->          \* !(getState() == none && onConnect != nil): process(nil, onRequest) starts a task that holds the key
-            /\ IF sh.st # 0 THEN Spawn(FALSE) /\ HSet("end") /\ UNCHANGED hist
+            /\ IF sh.st # 0 \/ ~WithOnConnect THEN Spawn(FALSE) /\ HSet("end") /\ UNCHANGED hist
                             ELSE UNCHANGED <<T, nt>> /\ (LET e == EnterCc(FALSE) IN HSet(e[1]) /\ hist' = e[2])
             /\ UNCHANGED sh
       \* Dev_HupLockTwice, the code before the repair of F12c: onProcess (lock, task) and then closeCallback (lock again)
       [] H.pc = "o_emp" ->
             /\ HSet(IF sh.inlen > 0 THEN "o_gs2" ELSE "o_clk") /\ UNCHANGED <<sh, T, nt, hist>>
       [] H.pc = "o_gs2" ->
-            /\ HSet(IF sh.st = 0 THEN "o_clk" ELSE "o_plk") /\ UNCHANGED <<sh, T, nt, hist>>
+            /\ HSet(IF sh.st = 0 /\ WithOnConnect THEN "o_clk" ELSE "o_plk") /\ UNCHANGED <<sh, T, nt, hist>>
       [] H.pc = "o_plk" ->
             /\ IF sh.processing = 0 THEN sh' = [sh EXCEPT !.processing = 1] /\ Spawn(FALSE) /\ HSet("end")
                                     ELSE UNCHANGED <<sh, T, nt>> /\ HSet("o_clk")
@@ -317,12 +336,13 @@ Spec == Init /\ [][Next]_vars
 CcPt(pc) == CASE pc = "cc_det" -> 14 [] pc = "cc_stop" -> 6 [] pc \in {"cc_un", "cc_unspin"} -> 13 [] pc \in {"cc_b1", "cc_b2"} -> 31 [] OTHER -> 0
 TPt(i) == LET pc == T[i].pc IN
     CASE pc = "t_start" -> 1000 [] pc \in {"t_cs1", "t_cs2", "t_od_gs", "t_od_cs"} -> 33 [] pc \in {"t_act1", "t_act2", "t_h6", "t_l_st", "t_x_st", "t_x_cb"} -> 2
-      [] pc \in {"t_ulc", "t_od_ul", "t_ulp"} -> 5 [] pc \in {"t_od_lk", "t_x_lk", "t_y_lk"} -> 4
+      [] pc \in {"t_ulc", "t_od_ul", "t_ulp"} -> 5 [] pc \in {"t_od_lk", "t_x_lk", "t_y_lk", "t_hc_lk"} -> 4
+      [] pc = "t_hc_cb" -> 1 [] pc = "t_hc_tr" -> 20 [] pc = "t_hc_tw" -> 21 [] pc = "t_hc_force" -> 3
       [] pc \in {"t_s_len", "t_h1", "t_h2", "t_h3", "t_h5", "t_h8", "t_l_len", "t_x_len", "t_y_len"} -> 31 [] pc = "t_h4" -> 30 [] pc = "t_h7" -> 10 [] pc = "t_h9" -> 11
       [] pc \in CcPcs -> CcPt(pc) [] OTHER -> 0
 PPt == CASE P.pc = "p_fetch" -> 1001 [] P.pc = "p_ev" -> 42 [] P.pc = "p_do" -> 10 [] P.pc \in {"p_add", "p_ra"} -> 30 [] P.pc = "p_gs" -> 33 [] P.pc = "p_lk" -> 4
          [] P.pc = "p_ws" -> 32 [] P.pc = "p_trig" -> 20 [] P.pc = "p_det" -> 14 [] P.pc = "p_done" -> 11 [] OTHER -> 0
-HPt == CASE H.pc = "h_start" -> 41 [] H.pc = "h_cb" -> 1 [] H.pc = "h_tr" -> 20 [] H.pc = "h_tw" -> 21 [] H.pc \in {"h_gs", "h_cs", "h_gs2", "o_gs2"} -> 33
+HPt == CASE H.pc = "h_start" -> 41 [] H.pc = "h_cb" -> 1 [] H.pc = "h_tr" -> 20 [] H.pc = "h_tw" -> 21 [] H.pc \in {"h_gs", "h_cs", "h_gs2", "o_gs2", "h_ss"} -> 33
          [] H.pc \in {"h_lk", "h_clk", "o_plk", "o_clk"} -> 4 [] H.pc = "h_ul" -> 5 [] H.pc \in {"h_emp", "o_emp"} -> 31 [] H.pc \in CcPcs -> CcPt(H.pc) [] OTHER -> 0
 CPt == CASE C.pc = "c_cb" -> 1 [] C.pc = "c_tr" -> 20 [] C.pc = "c_tw" -> 21 [] C.pc \in {"c_lk", "c_lk2"} -> 4 [] C.pc = "c_force" -> 3 [] C.pc \in CcPcs -> CcPt(C.pc) [] OTHER -> 0
 
